@@ -1,19 +1,21 @@
-SPECIFICATION Spec
+SPECIFICATION GSpec
 CONSTANTS
   Srv = {1, 2}
   Names = {"a", "b"}
   Clients = {1}
   MaxAtt = 3
   MaxCuts = 1
-  MaxProxies = 1
+  MaxProxies = 2
   Dev_NoCleanup = TRUE
   Dev_RouterFirst = TRUE
   Dev_NoLease = TRUE
-  Dev_StagingUnchecked = TRUE
+  Dev_StagingUnchecked = FALSE
   Dev_IdReuse = FALSE
   Dev_LookupStaged = FALSE
   Dev_RemovedForStaged = FALSE
   Dev_EnableErrorIgnored = FALSE
-INVARIANTS UniqueNames
-VIEW MCView
+  Tag = "S"
+  MaxLen = 5
+  SampleMod = 10
+CONSTRAINT Short
 CHECK_DEADLOCK FALSE
